@@ -226,7 +226,11 @@ def issue_param(seq, op: dict, pv: dict):
         return seq.measure(op["basis"])
     if k == "set_magnetic_field":
         return seq.set_magnetic_field(*op["b"])
-    raise ValueError(f"template op {k}")
+    if k == "config_slm_mask":
+        if "dmm_id" in op:
+            return seq.config_slm_mask(op["qubits"], op["dmm_id"])
+        return seq.config_slm_mask(op["qubits"])
+    raise env.HarnessError(f"template op {k} is not handled by issue_param")
 
 
 # ------------------------------------------------------------------ the world
@@ -886,9 +890,17 @@ class TemplateRun:
                     self.viol("C04/param-roundtrip-differs", i, f"after the {kind} round trip build({vals}) differs: {key_diff(k1, k2)}")
         if sorted(T.declared_variables) != sorted(T2.declared_variables):
             self.viol("C04/param-roundtrip-differs", i, "declared variables differ after the round trip")
-        # continue on the restored template
+        # continue on the restored template (inspecting it is part of "behaviourally
+        # identical": the original template could be fingerprinted)
+        try:
+            fp2 = fingerprint(T2)
+        except env.HarnessError:
+            raise
+        except Exception as e:  # noqa: BLE001
+            self.viol("C04/param-roundtrip-differs", i, f"the template restored by the {kind} round trip cannot be inspected (declared channels / str / abstract repr): {type(e).__name__}: {str(e)[:120]}")
+            return
         self.tw.T = T2
-        self.fp = fingerprint(T2)
+        self.fp = fp2
 
 
 def run_template(prop: str, seed: int, run: int, profile: dict, world=None, history=None) -> RunResult:
